@@ -122,6 +122,7 @@ func init() {
 		ruleMemberLoops(func(k string) bool { return k == "clip.line" || k == "clip.MultiLineString" || k == "clip.MultiPoint" }, 2, 1),
 		ruleRegionCodes(clipRegionFuncs, true),
 		ruleOpenFlagFlow,
+		ruleCompose(concatSpecs(clipLineMemberSpecs, clipVertexSpecs), 14),
 	)
 
 	register("C08",
@@ -133,6 +134,7 @@ func init() {
 		ruleRegionCodes(clipRegionFuncs, true),
 		ruleLoopShapes(inPkgs("clip."), 1, 5),
 		ruleBoxIntersection,
+		ruleCompose(concatSpecs(clipRingMemberSpecs, clipRingVertexSpecs), 14),
 	)
 
 	register("C09",
